@@ -211,7 +211,7 @@ def execute(st, ctx):
     async def drop_kept():
         # tools still holding the handle are closed by their owner: a started tool closes its input
         while kept:
-            it_, _rit = kept.pop()
+            it_, _rit, _info = kept.pop()
             await it_.aclose()
             model["open"] = False
             model["closed"] = True
@@ -458,13 +458,15 @@ def execute(st, ctx):
                     rfns = [make_ref_fn(rw, p).obj if p is not None else None for p in spec.fns]
                     rit = iter(tool.r(spec, rothers, rfns))
                     steps = j
+                    kept_info = {"tee_children": spec.p["n"] + (1 if spec.p.get("retee") else 0) if spec.tool == "tee" else None,
+                                 "done": set()}
                     out.probes["tool_kept"] = 1
                 else:
                     if not kept:
                         got = exp = ("nothing_kept",)
                         steps = 0
                     else:
-                        it, rit = kept.pop()
+                        it, rit, kept_info = kept.pop()
                         steps = 1
                 if kind == 15 or steps:
                     got_items, exp_items, got_end, exp_end = [], [], None, None
@@ -483,8 +485,17 @@ def execute(st, ctx):
                             exp_end = type(err).__name__
                         if got_end or exp_end:
                             break
+                    if kept_info["tee_children"] is not None:
+                        # the tee driver reports the end of each child as an event of its own: once every child has ended
+                        # (or was closed) the tee has released - closed - its source, the handle
+                        for ev in exp_items:
+                            if ev[0] == "t" and len(ev) == 3 and ev[2] in (("t", ("str", "'stop'")), ("t", ("str", "'closed'"))):
+                                kept_info["done"].add(ev[1])
                     if got_end is None and exp_end is None:
-                        kept.append((it, rit))
+                        kept.append((it, rit, kept_info))
+                        if kept_info["tee_children"] is not None and len(kept_info["done"]) >= kept_info["tee_children"] \
+                                and model["closed"] is False:
+                            tool_ended()
                     elif exp_end is not None:
                         tool_ended()
                     it = rit = None
